@@ -7,6 +7,7 @@ import (
 	"go/types"
 	"os"
 	"path/filepath"
+	"regexp"
 	"sort"
 	"strconv"
 	"strings"
@@ -240,12 +241,17 @@ func init() {
 		nQuick: 400, nThor: 6000, valid: 4, perSite: 6, maxDocs: 150, minDec: 3000,
 		rule: "enum lists of 1-4 values per kind (string, integer, number, boolean, mixed incl. null), typed/untyped, inline / $ref / array items / with default; per enum position every member and near-miss non-members of every JSON type; verdict vs model (JSON equality) and re-marshal (by pointer and by value) must give the bare value",
 	})
-	regSem(&semSpec{id: "C09",
+	regSem(&semSpec{id: "C09", census: defaultLiteralCensus,
 		opts:    sg.Opts{MaxDepth: 2, PDefault: 0.85, W: map[string]float64{"object": 2.5, "ref": 0.5, "compose": 0}},
 		classes: docgen.Classes{"default": true},
 		own:     classOwner("default", "valid"),
-		extra:   sameNameTwinCase,
-		values:  true, defaults: true,
+		extra: func(ctx *Ctx, i int, r *sg.Rng) *sem.Case {
+			if i < 32 {
+				return refDefaultCase(i)
+			}
+			return sameNameTwinCase(ctx, i-32, r)
+		},
+		values: true, defaults: true,
 		nQuick: 400, nThor: 6000, valid: 3, perSite: 3, maxDocs: 120, minDec: 2000,
 		rule: "optional properties with a default (string, integer, number, boolean, array of scalars, enums) alone/next to required siblings/in nested objects; documents with the key absent, null, present with the zero value, present with another value; decoded field (via re-marshal) must equal the default resp. the document value",
 	})
@@ -849,6 +855,94 @@ func formatCase(i int) *sem.Case {
 			docgen.Doc{V: jsonx.Obj{{K: "req", V: sv}}, Class: "format", Label: "required-only"},
 			docgen.Doc{V: jsonx.Obj{{K: "req", V: sv}, {K: "opt", V: other}, {K: "nul", V: sv}, {K: "list", V: []any{sv, other}}, {K: "nested", V: jsonx.Obj{{K: "at", V: sv}}}, {K: "viaRef", V: other}}, Class: "format", Label: "everywhere"},
 			docgen.Doc{V: jsonx.Obj{{K: "req", V: other}, {K: "nul", V: nil}, {K: "list", V: []any{}}}, Class: "format", Label: "null-and-empty"})
+	}
+	return c
+}
+
+// defaultLiteralCensus (C09, last sentence of the statement): a program that does not type-check because of a default
+// literal ("cannot use ... in assignment", composite literal problems) is a violation unless the schema carries a
+// default the recorded finding default-ill-typed speaks about.
+var reDefaultLiteral = regexp.MustCompile(`cannot use .* (as .* value )?in assignment|cannot use .* as .* value in (struct|slice|array|map) literal|invalid composite literal|missing type in composite literal`)
+
+func defaultLiteralCensus(ctx *Ctx) (func(cases []*sem.Case), func(o *Outcome)) {
+	checked, explained := 0, 0
+	var viols []Viol
+	each := func(cases []*sem.Case) {
+		for _, c := range cases {
+			p := sem.ProgramOf(c)
+			if p == nil || p.Report == nil || p.Proc.Exit != 0 {
+				continue
+			}
+			hasDefault := anyNode(c.Root, func(x *sg.Schema) bool { return x.HasDefault })
+			if !hasDefault {
+				continue
+			}
+			checked++
+			if p.Report.OK() {
+				continue
+			}
+			diag := p.Report.Summary()
+			if !reDefaultLiteral.MatchString(diag) {
+				continue
+			}
+			if ctx.Known.Has("default-ill-typed") && anyNode(c.Root, illTypedDefault) {
+				explained++
+				continue
+			}
+			if len(viols) < 5 {
+				b, _ := json.MarshalIndent(map[string]any{"property": "C09", "kind": "default literal census", "diagnostic": diag, "schema": json.RawMessage(jsonx.Marshal(c.Root.ToJSON())), "args": c.Args, "emitted": string(p.Src)}, "", " ")
+				path := filepath.Join(evid.ReplayDir(), fmt.Sprintf("C09-census-%d.json", len(viols)))
+				_ = os.WriteFile(path, b, 0o644)
+				viols = append(viols, Viol{Replay: path, Summary: fmt.Sprintf("default literal census: the emitted default literal does not have the Go type of its field: %s\n schema=%s", trunc(diag, 300), trunc(string(jsonx.Marshal(c.Root.ToJSON())), 500))})
+			}
+		}
+	}
+	finish := func(o *Outcome) {
+		o.Coverage["programs_with_defaults_type_checked"] = checked
+		o.Coverage["default_literal_failures_explained_by_recorded_finding"] = explained
+		o.Violations = append(o.Violations, viols...)
+	}
+	return each, finish
+}
+
+// refDefaultCase: a default stated next to a reference to a named scalar / enum / scalar-array definition: absent and
+// null take the default (a literal of the named type), a present value is kept.
+func refDefaultCase(i int) *sem.Case {
+	str := &sg.Schema{Types: []string{"string"}}
+	defs := []struct {
+		name        string
+		s           *sg.Schema
+		def, other  any
+		validZeroOK bool
+	}{
+		{"Tags", &sg.Schema{Types: []string{"array"}, Items: str}, []any{"a", "b"}, []any{"z"}, true},
+		{"Ports", &sg.Schema{Types: []string{"array"}, Items: &sg.Schema{Types: []string{"integer"}}}, []any{jsonx.N(80), jsonx.N(443)}, []any{jsonx.N(1)}, true},
+		{"Ratios", &sg.Schema{Types: []string{"array"}, Items: &sg.Schema{Types: []string{"number"}}, MaxItems: 3}, []any{jsonx.Num("0.5"), jsonx.N(2)}, []any{}, true},
+		{"Flags", &sg.Schema{Types: []string{"array"}, Items: &sg.Schema{Types: []string{"boolean"}}}, []any{true, false}, []any{false}, true},
+		{"Name", &sg.Schema{Types: []string{"string"}, MinLen: 2}, "anon", "bob", false},
+		{"Plain", &sg.Schema{Types: []string{"string"}}, "p", "q", true},
+		{"Level", &sg.Schema{Types: []string{"integer"}, Min: sg.Fp(1)}, jsonx.N(3), jsonx.N(7), false},
+		{"Count", &sg.Schema{Types: []string{"integer"}}, jsonx.N(5), jsonx.N(0), true},
+		{"Color", &sg.Schema{Types: []string{"string"}, HasEnum: true, Enum: []any{"red", "green"}}, "red", "green", false},
+	}
+	root := &sg.Schema{Types: []string{"object"}}
+	all := jsonx.Obj{}
+	for k, d := range defs {
+		if (i>>uint(k%4))&1 == 1 && i%3 != 0 {
+			continue // subsets, so that each definition also occurs on its own
+		}
+		root.Defs = append(root.Defs, sg.Prop{Name: d.name, S: d.s})
+		key := strings.ToLower(d.name)
+		root.Props = append(root.Props, sg.Prop{Name: key, S: &sg.Schema{Ref: "#/$defs/" + d.name, Target: d.s, Default: d.def, HasDefault: true}})
+		all = append(all, jsonx.KV{K: key, V: d.other})
+	}
+	c := &sem.Case{Root: root, Sig: fmt.Sprintf("ref-default/%d", i%16)}
+	if i%2 == 1 {
+		c.Args = []string{"--extra-imports"}
+	}
+	c.Docs = append(c.Docs, docgen.Doc{V: jsonx.Obj{}, Class: "default", Label: "all-absent"}, docgen.Doc{V: all, Class: "default", Label: "all-present"})
+	for _, kv := range all {
+		c.Docs = append(c.Docs, docgen.Doc{V: jsonx.Obj{{K: kv.K, V: nil}}, Class: "default", Label: "null-" + kv.K}, docgen.Doc{V: all.Del(kv.K), Class: "default", Label: "absent-" + kv.K}, docgen.Doc{V: jsonx.Obj{{K: kv.K, V: kv.V}}, Class: "default", Label: "only-" + kv.K})
 	}
 	return c
 }
